@@ -294,7 +294,14 @@ Spec == Init /\ [][Next]_vars
 View == [phase  |-> st.phase, scopes |-> st.scopes, cid |-> st.cfg.cid,
          insts  |-> {<<st.inst[i].reg, st.inst[i].out, st.inst[i].owner, st.inst[i].closed>> : i \in InstIds(st)},
          cached |-> {<<c[1], c[2], c[3]>> : c \in st.cache},
+         \* how often the constructors with a scripted fault have run: a retry after a failure is a different state
+         faulted |-> [i \in DOMAIN st.cfg.faults |-> st.runs[st.cfg.faults[i].reg]],
          n      |-> Len(hist)]
+
+\* finer view: also remembers the previous operation, so that every pair (previous operation, next operation) is
+\* explored from every abstract state (what failed first matters to an implementation even where the reference
+\* state is the same)
+View1 == [v |-> View, last |-> IF hist = <<>> THEN <<>> ELSE <<hist[Len(hist)]>>]
 
 Emit == IF EmitOn THEN PrintT(<<"SCN", ToJson([cfg |-> st.cfg, ops |-> hist'])>>) ELSE TRUE
 
